@@ -267,14 +267,14 @@ theorem failedCode_none_iff (env : Env) (fs : FS) (cmds : List (Option String ×
         · exact h c hc
       · intro h c hc; exact h c (by simp [hc])
 
-theorem failedCode_some_ne_zero (ran : List (Option String × Outcome)) (c : Nat) (h : failedCode ran = some c) : c ≠ 0 := by
+theorem failedCode_some_ne_zero (ran : List (Option String × Outcome)) (c : Int) (h : failedCode ran = some c) : c ≠ 0 := by
   unfold failedCode at h
   cases hr : ran.getLast? with
   | none => simp [hr] at h
   | some x =>
     simp only [hr] at h
     split at h
-    · rename_i hx; cases h; exact hx
+    · rename_i hx; simp only [Option.some.injEq] at h; rw [← h]; exact hx
     · cases h
 
 theorem exec_all_ok_ran_all (env : Env) (fs : FS) (cmds : List (Option String × Outcome))
